@@ -35,15 +35,15 @@ type CaseRef struct {
 	Zone       string
 }
 type Pool struct {
-	Paths      []PathRow      `json:"paths"`
-	Docs       []wire.Value   `json:"docs"`
-	Vars       [][]wire.Var   `json:"vars"`
-	Cases      []CaseRef      `json:"cases"`
-	Seed       int64          `json:"seed"`
-	Goroutines int            `json:"goroutines"`
-	PerG       int            `json:"perG"`
-	History    int            `json:"history"`
-	Parsers    int            `json:"parsers"`
+	Paths      []PathRow    `json:"paths"`
+	Docs       []wire.Value `json:"docs"`
+	Vars       [][]wire.Var `json:"vars"`
+	Cases      []CaseRef    `json:"cases"`
+	Seed       int64        `json:"seed"`
+	Goroutines int          `json:"goroutines"`
+	PerG       int          `json:"perG"`
+	History    int          `json:"history"`
+	Parsers    int          `json:"parsers"`
 }
 
 type CallRow struct {
